@@ -1,2 +1,135 @@
-(* Properties/C16.v — placeholder while the proofs are being written. *)
-From MP Require Import Common.Base Common.Tree Model.Expand.
+(* Properties/C16.v — reference expansion substitutes independent copies, atomically.
+   Only statements closed by [exact]; proofs are in Proofs/C16_*.v.
+
+   [expand t] is the Gallina model of references.expand (Model/Expand.v) on id-carrying trees:
+   [EOk t' rem n] = tree after, ids leaving the registry, number of nodes created (the k-th gets
+   the id [fresh k]); [EFail] = ValueError with the tree as it was; [EOutOfScope] = outside the
+   property's precondition.  The spec (Spec/ExpandSpec.v): [spec_ok] = every id value occurs once
+   and every references content is one of them; [expands src t t'] = every node keeps its record
+   and place, each references child is replaced in place by copies ([copy_of]: same shape and
+   fields, any ids) of the children of the element it names.  Preconditions: [attrs_wf]
+   (attribute keys unique: a dict), [refs_flat] (referenced elements hold no references; none
+   nested), [ns_agree] (copies land under an equal namespace map; else add_child adds the
+   parent's prefixes to the copy: modelled and checked against the code, stated in C13). *)
+From MP Require Import Common.Base Common.Tree Gen.Tables Model.Rule Model.Expand Model.PruneRun Spec.Lang.
+From MP Require Import Spec.ExpandSpec Spec.RefShape.
+From Coq Require Import Permutation.
+From MP Require Import Proofs.C16_Check Proofs.C16_Eq Proofs.C16_Post Proofs.C16_Valid Proofs.C16_Main Proofs.C16_Fresh.
+
+(** Table obligation: every shipped rule that allows "references" has the shape
+    Cho [A; El references 1 1] 1 1, optionally followed in a Seq by El role 1 None. *)
+Theorem C16_table : forallb (fun p => rule_ref_shape_ok (snd p)) rules = true.
+Proof. exact shipped_ref_shapes. Qed.
+Print Assumptions C16_table.
+
+(** The check phase is a pure function deciding the spec's resolvability. *)
+Theorem C16_check : forall t, attrs_wf t -> check t = if spec_ok t then Some (id_pairs t) else None.
+Proof. exact check_spec. Qed.
+Print Assumptions C16_check.
+
+(** Resolvable tree within the precondition: the model expands as the spec says. *)
+Theorem C16_eq : forall t,
+  attrs_wf t -> spec_ok t = true -> refs_flat t = true -> ns_agree t = true ->
+  exists t' n, expand t = EOk t' (flat_map ids_of (refs_of t)) n /\ expands (src_kids t) t t'.
+Proof. exact expand_ok. Qed.
+Print Assumptions C16_eq.
+
+(** An id used twice or a reference naming no id: ValueError, and the tree is the input (the
+    model returns no tree on this path; [C16_atomic_check]: the failure is decided by the check
+    phase, which computes no tree, before the edit phase runs). *)
+Theorem C16_atomic : forall t, attrs_wf t -> spec_ok t = false -> expand t = EFail.
+Proof. exact expand_fail. Qed.
+Print Assumptions C16_atomic.
+
+Theorem C16_atomic_check : forall t, expand t = EFail -> check t = None.
+Proof. exact expand_fail_only_check. Qed.
+Print Assumptions C16_atomic_check.
+
+(** No references node is left behind. *)
+Theorem C16_no_refs_left : forall t,
+  attrs_wf t -> spec_ok t = true -> refs_flat t = true -> ns_agree t = true ->
+  forall t' rem n, expand t = EOk t' rem n -> refs_of t' = [].
+Proof. exact no_refs_left_l. Qed.
+Print Assumptions C16_no_refs_left.
+
+(** Every subtree that holds no references node and is not inside one is still there, unchanged
+    (same records, ids included) — in particular every referenced element ([C16_sources]). *)
+Theorem C16_sources_unchanged : forall t,
+  attrs_wf t -> spec_ok t = true -> refs_flat t = true -> ns_agree t = true ->
+  forall t' rem n, expand t = EOk t' rem n ->
+  forall x, outside_refs t x -> has_ref x = false -> In x (preorder t').
+Proof. exact sources_unchanged_l. Qed.
+Print Assumptions C16_sources_unchanged.
+
+Theorem C16_sources : forall t r x,
+  refs_flat t = true -> In r (refs_of t) -> target t r = Some x -> has_ref x = false.
+Proof. exact flat_target. Qed.
+Print Assumptions C16_sources.
+
+(** Id accounting: ids of the result + ids that left the registry = ids of the input + the
+    fresh ids, as multisets. *)
+Theorem C16_ids : forall t t' rem n,
+  attrs_wf t -> refs_flat t = true -> expand t = EOk t' rem n ->
+  Permutation (ids_of t' ++ rem) (ids_of t ++ map fresh (seq 0 n)).
+Proof. exact expand_ids. Qed.
+Print Assumptions C16_ids.
+
+(** The copies' ids are distinct from all old ids and from each other (given a supply that
+    avoids the old ids), and no id occurs twice in the result. *)
+Theorem C16_copies_fresh : forall t t' rem n,
+  attrs_wf t -> refs_flat t = true -> expand t = EOk t' rem n ->
+  NoDup (ids_of t) -> (forall k, ~ In (fresh k) (ids_of t)) ->
+  NoDup (ids_of t ++ map fresh (seq 0 n)) /\ NoDup (ids_of t') /\
+  (forall i, In i (ids_of t') -> In i (ids_of t) \/ exists k, k < n /\ i = fresh k).
+Proof. exact expand_fresh. Qed.
+Print Assumptions C16_copies_fresh.
+
+(** Validity is preserved — PARTIAL: proved on the declared content model (the tree-level statement
+    is [C16_valid_full_statement] below; missing: the link matcher = L of C01 and tree = nodes of C05): for a rule of the references shape,
+    replacing the references child by the children of an element governed by the same rule
+    (whose child names [w_src] are in the language and hold no "references") gives a child
+    sequence of the language. *)
+Theorem C16_valid_partial : forall mixed top w_ref w_src,
+  ref_shape_ok top = true ->
+  L mixed top w_ref -> L mixed top w_src -> ~ In REFS_NAME w_src ->
+  L mixed top (subst_refs w_ref w_src).
+Proof. exact ref_subst_L. Qed.
+Print Assumptions C16_valid_partial.
+
+(** ... the child names after expansion are exactly that substitution ... *)
+Theorem C16_valid_names : forall src d ks ks' w_src,
+  expands src (FT d ks) (FT d ks') ->
+  (forall r, In r ks -> is_ref r = true -> map ft_name (src r) = w_src) ->
+  map ft_name ks' = subst_refs (map ft_name ks) w_src.
+Proof. exact expanded_child_names. Qed.
+Print Assumptions C16_valid_names.
+
+(** ... and a copy validates like its source: validation reads [view], which has no ids. *)
+Theorem C16_valid_copies : forall c c', copy_of c c' -> view c' = view c.
+Proof. exact copy_view. Qed.
+Print Assumptions C16_valid_copies.
+
+(** The tree-level statement "validate.tree passes before => passes after" combines the three
+    with C01 (child validation = membership in L, under greedy_ok) and C05 (tree validation =
+    conjunction of node validations); it is executed against the implementation by the
+    statement search of harness/c16.py. *)
+Definition C16_valid_full_statement : Prop :=
+  forall orc tb t t' rem n,
+    validate_tree orc tb (view t) = Errs [] -> expand t = EOk t' rem n ->
+    (forall r x, In r (refs_of t) -> target t r = Some x ->
+       exists p, In p (preorder t) /\ In r (ft_kids p) /\
+                 assoc (ft_name p) (tb_node_map tb) = assoc (ft_name x) (tb_node_map tb)) ->
+    validate_tree orc tb (view t') = Errs [].
+
+(** Non-vacuity *)
+Example C16_witness :
+  spec_ok ex16 = true /\ refs_flat ex16 = true /\ ns_agree ex16 = true /\
+  exists t', expand ex16 = EOk t' [s "a1"] 2 /\ map ft_name (ft_kids (nth 1 (ft_kids t') ex16)) = [s "organizationName"; s "phone"; s "role"].
+Proof.
+  exact (conj (proj1 ex16_hyps) (conj (proj1 (proj2 ex16_hyps)) (conj (proj2 (proj2 ex16_hyps))
+         (ex_intro _ _ (conj ex16_expand eq_refl))))).
+Qed.
+
+Example C16_witness_fail :
+  expand (FT (mk (s "d") (s "dataset") None [(s "id", s "p1")]) (ft_kids ex16)) = EFail.
+Proof. exact ex16_dup. Qed.
